@@ -24,6 +24,10 @@
 //
 // Binary data is encoded in chunks. The octet x42 ('B') encodes the final chunk
 // and x62 ('b') represents any non-final chunk. Each chunk has a 16-bit // length value.
+//
+// NOTE: the grammar above is that of the draft. The final Hessian 2.0 grammar (and the Java implementation)
+// uses x41 ('A') for the non-final chunk, because x62 is the short form of an instance of class #2.
+// The encoder writes 'A'; the decoder also accepts 'b' where it cannot be such an instance.
 // 	len = 256 * b1 + b0
 //
 // short binary
@@ -42,7 +46,8 @@ import (
 const (
 	_binaryChunkSize      = 4096
 	_binaryFinalChunk     = byte('B')  // final chunk
-	_binaryChunk          = byte('b')  // non-final chunk
+	_binaryChunk          = byte('A')  // non-final chunk (x41 in Hessian 2.0)
+	_binaryChunkDraft     = byte('b')  // non-final chunk of the earlier draft (x62): Hessian 2.0 gives x62 to instances of class #2
 	_binaryShortLenTagMin = byte(0x20) // 1-byte length binary min
 	_binaryShortLenTagMax = byte(0x2f) // 1-byte length binary max
 	_binaryShortTagMaxLen = int(_binaryShortLenTagMax - _binaryShortLenTagMin)
@@ -154,7 +159,7 @@ func binaryShortTag(tag byte) bool {
 }
 
 func binaryChunkTag(tag byte) bool {
-	return tag == _binaryFinalChunk || tag == _binaryChunk
+	return tag == _binaryFinalChunk || tag == _binaryChunk || tag == _binaryChunkDraft
 }
 
 func binaryEndTag(tag byte) bool {
